@@ -298,6 +298,11 @@ pub trait Property: Sync {
     fn workers(&self, _tier: Tier) -> usize {
         16
     }
+    /// does a violation carry the failing program as IR (`case.ir`) that `replay` re-judges,
+    /// so that the IR-level delta debugger can reduce it after proptest's tape shrink?
+    fn ir_shrinkable(&self) -> bool {
+        false
+    }
     /// can the coverage-guided fuzz target extend this property's thorough tier?
     /// (in-process judgement, no real binaries involved)
     fn fuzzable(&self) -> bool {
@@ -392,6 +397,7 @@ pub fn run_worker(p: &dyn Property, a: &WorkerArgs) -> i32 {
                                 o.insert("tape".into(), json!(hex(&tape)));
                             }
                         }
+                        let v = shrink_violation(p, v, &mut ctx);
                         ctx.violations.push(v);
                     }
                     Ok(()) => ctx.violations.push(Violation::new(
@@ -426,6 +432,56 @@ pub fn run_worker(p: &dyn Property, a: &WorkerArgs) -> i32 {
     });
     std::fs::write(&a.out, serde_json::to_vec(&res).unwrap()).unwrap();
     0
+}
+
+/// IR-level delta debugging of a program-shaped violation (after the tape shrink).
+pub fn shrink_violation(p: &dyn Property, v: Violation, ctx: &mut Ctx) -> Violation {
+    if !p.ir_shrinkable() {
+        return v;
+    }
+    let prog: crate::ir::Prog = match v.case.get("ir") {
+        Some(x) if !x.is_null() => match serde_json::from_value(x.clone()) {
+            Ok(p) => p,
+            Err(_) => return v,
+        },
+        _ => return v,
+    };
+    if !crate::fragment::check(&prog) {
+        return v; // the checker is conservative: do not reduce what it cannot vouch for
+    }
+    let kind = v.kind.clone();
+    let tape = v.case.get("tape").cloned();
+    let before: usize = prog.iter().map(|e| e.size()).sum();
+    let best = std::cell::RefCell::new(v);
+    let was = ctx.counting;
+    ctx.counting = false;
+    let small = crate::shrink::shrink_prog(
+        &prog,
+        &mut |cand| {
+            let case = json!({"ir": serde_json::to_value(cand).unwrap(), "origin": "ir-shrink"});
+            match p.replay(&case, ctx) {
+                Err(v2) if v2.kind == kind => {
+                    *best.borrow_mut() = v2;
+                    true
+                }
+                _ => false,
+            }
+        },
+        1500,
+    );
+    ctx.counting = was;
+    let mut out = best.into_inner();
+    let after: usize = small.iter().map(|e| e.size()).sum();
+    if let Some(o) = out.case.as_object_mut() {
+        o.insert("ir".into(), serde_json::to_value(&small).unwrap());
+        o.insert("source".into(), json!(crate::render::pretty(&small)));
+        o.insert("shrunk".into(), json!({"nodes_before": before, "nodes_after": after, "method": "proptest tape shrink, then IR-level delta debugging within the fragment"}));
+        if let Some(t) = tape {
+            o.insert("original_tape".into(), t);
+        }
+        o.remove("tape");
+    }
+    out
 }
 
 // ------------------------------------------------------------------ supervisor
